@@ -53,6 +53,10 @@ Definition ecode_table : list (string * Z) := [
   ("ttheader.readACLToken#fmt.Errorf", 8); ("ttheader.readKVInfo#fmt.Errorf", 9);
   ("ttheader.Decode#errors.New", 3); ("ttheader.Decode#fmt.Errorf#1", 4);
   ("ttheader.Decode#fmt.Errorf#2", 7); ("ttheader.Decode#fmt.Errorf#3", 8);
+  (* Encode: a failing writer (1..5; the hand model's writer never fails: code 11), the size check (6: Model/TTHeader.v e_toolarge) *)
+  ("ttheader.Encode#fmt.Errorf#1", 11); ("ttheader.Encode#fmt.Errorf#2", 11); ("ttheader.Encode#fmt.Errorf#3", 11);
+  ("ttheader.Encode#fmt.Errorf#4", 11); ("ttheader.Encode#fmt.Errorf#5", 11); ("ttheader.Encode#fmt.Errorf#6", 10);
+  ("thrift.MarshalFastMsg#errors.New", 30);
   ("thrift.SkipDecoderTpl.Skip#thrift.NewProtocolException", 18); ("thrift.skipType#thrift.NewProtocolException", 18);
   (* the labels thrift.PrependError adds in the FastRead methods of base/k-base.go (the labels lbl_begin, lbl_field, lbl_skip of Model/FastCodec.v) *)
   ("base.Base.FastRead#thrift.PrependError#1", 100); ("base.Base.FastRead#thrift.PrependError#2", 200);
@@ -259,3 +263,54 @@ Definition gptr_set {A} (isnil : bool) (x : A) : res A := if isnil then Panic 5 
    err (Model/FastCodec.v relabel) *)
 Definition gerr_prepend (k : Z) (e : gerror) : res gerror :=
   match e with None => Panic 5 | Some c => Ok (Some (k + c)) end.
+
+(* =====================================================================================
+   Phase 3 of the translator: the write / encode side
+   ===================================================================================== *)
+
+(* f(p[off:], ...) for a callee f that stores into its parameter: the callee works on the tail
+   [drop off p] (after the bounds check of the slice expression, gslice_from) and cannot change
+   its length; its final contents [sub] replace the tail of p *)
+Definition gsplice (buf : bytes) (off : Z) (sub : bytes) : bytes := (take (Z.to_N off) buf ++ sub)%list.
+
+(* len(m) for a Go map: the number of DISTINCT keys among the assignments *)
+Fixpoint alist_count {K V} (eqb : K -> K -> bool) (l : list (K * V)) : nat :=
+  match l with
+  | [] => O
+  | (k, _) :: r => if existsb (fun kv => eqb (fst kv) k) r then alist_count eqb r else S (alist_count eqb r)
+  end.
+Definition gmap_len {K V} (eqb : K -> K -> bool) (m : gmap K V) : Z :=
+  match m with None => 0 | Some l => Z.of_nat (alist_count eqb l) end.
+
+(* `for k, v := range m`: Go does not specify the enumeration order.  The generated definition
+   takes it as an explicit parameter ord : list K and looks v up in the map; the theorems assume
+   that ord enumerates each key of the map exactly once ([] for the nil or empty map). *)
+Definition gmap_keys {K V} (m : gmap K V) : list K := match m with None => [] | Some l => map fst l end.
+Definition gmap_order_ok {K V} (m : gmap K V) (ord : list K) : Prop :=
+  NoDup ord /\ forall k, In k ord <-> In k (gmap_keys m).
+
+(* v, ok := m[k] *)
+Definition gmap_find {K V} (eqb : K -> K -> bool) (m : gmap K V) (k : K) : option V :=
+  match m with None => None | Some l => alist_get eqb l k end.
+
+(* WINDOWS into memory owned by an abstract object (the []byte a bufiox.Writer's Malloc(n)
+   returns): (start, length) in the object's own address space.  Stores through a window are the
+   object's poke operation, a parameter r_<obj>_poke : St -> Z -> bytes -> res St of the generated
+   definition (position, bytes); the translator refuses every other use of a window (reading an
+   element, copying, handing it to a callee), so a window never stands for its contents. *)
+Definition gregion := (Z * Z)%type.
+Definition gregion_nil : gregion := (0, 0).
+Definition gregion_len (r : gregion) : Z := snd r.
+(* w[lo:hi]  (cap = len) *)
+Definition gregion_slice (r : gregion) (lo hi : Z) : res gregion :=
+  if (lo <? 0) || (hi <? lo) || (snd r <? hi) then Panic 1 else Ok (fst r + lo, hi - lo).
+(* the position of w[i] *)
+Definition gregion_at (r : gregion) (i : Z) : res Z :=
+  if (i <? 0) || (snd r <=? i) then Panic 1 else Ok (fst r + i).
+(* binary.BigEndian.PutUintK(w, v): panics when w is shorter than k bytes *)
+Definition gregion_need (r : gregion) (k : nat) : res Z :=
+  if snd r <? Z.of_nat k then Panic 1 else Ok (fst r).
+
+(* x[i] for a slice that the function only reads (a list): panics out of range *)
+Definition gelem {A} (l : list A) (i : Z) : res A :=
+  if i <? 0 then Panic 2 else match nth_error l (Z.to_nat i) with Some x => Ok x | None => Panic 2 end.
